@@ -50,6 +50,11 @@ UNIT = {
               '(a document whose string filter differs: findings/strf_ignored.md). Not covered: /Perms validation, non-ASCII passwords',
      'contract': 'every string and every stream reads back equal to the plaintext that was encrypted (Algorithm 1 / 1.A by an independent '
                  'implementation); cleartext metadata and the strings of the encryption dictionary come back unmodified; a wrong password is InvalidPassword'},
+    # known finding (known_findings.txt): /StrF is ignored. Its own obligation id, so that only this case is listed.
+    {'name': 'strf_selects_the_string_filter', 'code': 'native_strf_identity.rs', 'place': 'pdf/tests/verif_c06_strf.rs',
+     'fn': 'Decoder::from_password', 'props': ['C06'], 'tier': 'quick', 'timeout': 900,
+     'bound': 'V4/R4 documents with /StmF /StdCF /StrF /Identity, /CFM /V2 and /CFM /AESV2, 34 clear strings of length 0..=33, user password empty',
+     'contract': 'ISO 32000-1 Table 20: strings are processed by the crypt filter named by /StrF (here /Identity: passed through unchanged), streams by /StmF'},
  ]},
  'tolerances': {
    'TOL_PAD_BYTES_UNCHECKED': 'AES data whose last byte is a possible pad length n (1..=16, at most the data length) but whose last n bytes are not all '
